@@ -216,7 +216,7 @@ class Parser:
         block_token: Token = self.current_token
         self._eat_token(TokenType.REPEAT)
         body: Block = self._parse_block(block_token)
-        body.comment.extend(repeat_token.comment)
+        # the body shares its token (and comments) with the repeat statement
         self._switch_hint("condition")
         self._eat_token(TokenType.UNTIL)
         condition: Expression = self._parse_exp()
